@@ -28,10 +28,10 @@ _m(
         "invariants are evaluated by the harness in float64/complex128 on the tensors quantem returns; quantem code is never "
         "re-run as its own reference (the only self-application is the re-application C(C(x)) the property itself names)",
         "amplitude tolerances 1e-5 absolute (|o| <= 1 + 1e-5, ||o| - 1| <= 1e-5, | |C(C(x))| - |C(x)| | <= 1e-5): float32 abs/clamp/exp; "
-        "largest clean-tree deviations over 104 000 thorough-scale cases 9.9e-8 / 4.3e-8 / 1.3e-7",
+        "largest clean-tree deviations over 156 000 thorough-scale cases 1.1e-7 / 4.3e-8 / 1.3e-7",
         "non-negativity (potential + positivity, tomography + positivity) and slice identity are judged exactly (no tolerance)",
         "mode intensities, total diffraction intensity and relative weights: rtol 1e-5 (float32 sums of <= 144 squares; measured "
-        "4.5e-7 / 5.1e-7 / 4.2e-7)",
+        "4.8e-7 / 5.1e-7 / 4.2e-7)",
         "orthogonality: |<p_i,p_j>| / (|p_i||p_j|) <= 1e-5 + 10 * eps32 * cond(C), cond(C) = condition number of the prescribed "
         "correlation matrix computed by the harness: classical Gram-Schmidt loses orthogonality like eps*cond(A)^2 = eps*cond(C); "
         "measured <= 0.55 * eps32 * cond(C) over all structures (<= 4.7e-6 absolute), i.e. >= 18x head-room; deviation from the flat "
